@@ -987,3 +987,11 @@ CASES += [
          old="""            let (l_s, r_s) = order.split_at(order.len() / 2);""",
          new="""            let (l_s, r_s) = order.split_at((order.len() + 1) / 2);"""),
 ]
+
+CASES += [
+    dict(name="vo-in-order-iter-wrong-table", file=VOF, rule="VO", props=["C14"], expect="in_order_iter:iter-elements",
+         old="""        self.pos_to_var.iter().map(|x| VarLabel::new_usize(*x))
+    }""",
+         new="""        self.var_to_pos.iter().map(|x| VarLabel::new_usize(*x))
+    }"""),
+]
